@@ -1,9 +1,11 @@
-import XrlC13.Core.Basic
+import XrlC13.Core.Types
 /-!
 # Hand model of the numeric half of `src/crystal_diffraction.c`  (property C13)
 
 Core Lean only, polymorphic in the carrier (ℝ in the proofs, `Float` in the compiled driver), executable.
-The functions mirror the C code **as it is** (line numbers of /repo/src/crystal_diffraction.c at 39e5c1a):
+The functions mirror the C code (line numbers of /repo/src/crystal_diffraction.c at 39e5c1a, before the repairs C13-1..5 went in).
+The model is **not trusted**: on every run tools/c13_c2lean.py translates the nine functions from the working tree's C source
+(XrlC13/Gen/Crystal.lean) and Props/C13g.lean proves `Gen.f = f repaired` for every input; the data types live in Core/Types.lean.
 
 | model                                   | C                                                        |
 |-----------------------------------------|----------------------------------------------------------|
@@ -28,8 +30,9 @@ What is an *outcome* rather than a value (Core/Basic.lean):
 The elemental functions `FF_Rayl`, `Fi`, `Fii` are **parameters** (`Elem`): their behaviour is the subject of other
 properties (C02/C03), and the property text speaks of "the atomic factors the library itself reports".
 
-`Variant` carries one switch per proposed repair (notes/proposed_fixes/C13-*.diff); `asIs` is the shipped code.
-The check probes the library built from the working tree and runs the model with the switches it observes.
+`Variant` carries one switch per repair (notes/proposed_fixes/C13-*.diff, all applied to /repo since); `asIs` is the code as originally
+shipped, `repaired` the code the refinement theorems speak about.  The check probes the library built from the working tree and
+runs the compiled model with the switches it observes (correspondence in the `Float` reading).
 -/
 namespace Xrl
 namespace C13
@@ -45,32 +48,6 @@ structure Variant where
 
 def asIs : Variant := ⟨false, false, false, false, false⟩
 def repaired : Variant := ⟨true, true, true, true, true⟩
-
-structure Atom (α : Type) where
-  Zatom : Int
-  fraction : α
-  x : α
-  y : α
-  z : α
-  deriving Inhabited
-
-/-- `Crystal_Struct` without the name; `n_atom` is the length of `atoms` -/
-structure Crystal (α : Type) where
-  a : α
-  b : α
-  c : α
-  alpha : α
-  beta : α
-  gamma : α
-  volume : α
-  atoms : List (Atom α)
-  deriving Inhabited
-
-/-- `FF_Rayl(Z, q, error)`, `Fi(Z, E, error)`, `Fii(Z, E, error)` as the library reports them -/
-structure Elem (α : Type) where
-  ff : Int → α → Slot → M (α × Slot)
-  fi : Int → α → Slot → M (α × Slot)
-  fii : Int → α → Slot → M (α × Slot)
 
 def NEGATIVE_ENERGY : String := "Energy must be strictly positive"
 def INVALID_MILLER : String := "Miller indices cannot all be zero"
